@@ -57,12 +57,82 @@ Proof. vm_compute. auto. Qed.
 (* c09_hayflick: the potential is tight (2 True unit ticks + length 1 = 3),
    and a renewal restarts the count *)
 Example ex_hayflick :
-  exec_count depleted_f64 rate_hit_f64 current cfg3 (init cfg3) 0 0 [Tick 1; Tick 1]
-  = (execf cfg3 (init cfg3) [Tick 1; Tick 1], 2, 2) /\
+  exec_count depleted_f64 rate_hit_f64 current cfg3 (init cfg3) 3 0 0 [Tick 1; Tick 1]
+  = (execf cfg3 (init cfg3) [Tick 1; Tick 1], 3, 2, 2) /\
   len (execf cfg3 (init cfg3) [Tick 1; Tick 1]) = 1 /\
-  snd (fst (exec_count depleted_f64 rate_hit_f64 current cfg3 (init cfg3) 0 0
+  snd (fst (exec_count depleted_f64 rate_hit_f64 current cfg3 (init cfg3) 3 0 0
               [Tick 1; Tick 1; Tick 1; Renew None true; Tick 1])) = 1.
 Proof. vm_compute. auto. Qed.
+
+(* ---------------------------------------------------------------------- *)
+(* configuration attributes assigned on the live object                     *)
+
+(* c09_config_*: assignments are operations of the history; the last one wins, the others keep the
+   constructor's values *)
+Example ex_config_in_force :
+  cfg_exec cfg3 [Start; SetAllowRenewal false; Tick 1; SetMaxOps 7; SetAllowRenewal true; SetIdleTimeout None;
+                 SetAllowRenewal false; Renew None true]
+  = mkConfig 7 2 false (Some 10) None.
+Proof. vm_compute. reflexivity. Qed.
+
+(* c09_renew_refused_after_revocation / c09_revoked_renewal_is_final are not vacuous: constructed with renewal
+   allowed, renewed once (True), then the permission is revoked on the live object; the lifecycle ticks down to
+   SENESCENT, renew is refused and changes nothing - whereas without the assignment the same renew succeeds *)
+Example ex_revocation :
+  let pre := [Start; Tick 1; Tick 1; Renew None true] in
+  let post := [Tick 1; Tick 1; Tick 1] in
+  let hist := pre ++ SetAllowRenewal false :: post in
+  let s := execf cfg3 (init cfg3) hist in
+  allow_renewal cfg3 = true /\
+  step_out depleted_f64 rate_hit_f64 current cfg3 (execf cfg3 (init cfg3) [Start; Tick 1; Tick 1]) (Renew None true)
+    = Ret (RBool true) /\
+  allow_renewal (cfg_exec cfg3 hist) = false /\
+  ph s = Senescent /\ len s = 0 /\
+  stepf (cfg_exec cfg3 hist) s (Renew None true) = (s, Ret (RBool false), []) /\
+  step_out depleted_f64 rate_hit_f64 current cfg3 (execf cfg3 (init cfg3) (pre ++ post)) (Renew None true)
+    = Ret (RBool true).
+Proof. vm_compute. repeat split; reflexivity. Qed.
+
+Example ex_revoked_is_final :
+  let cfg := cfg_exec cfg3 [Start; Tick 1; Renew None true; SetAllowRenewal false] in
+  let s := execf cfg3 (init cfg3) [Start; Tick 1; Renew None true; SetAllowRenewal false] in
+  let ops := [Tick 1; Renew None true; Tick 1; SetMaxOps 9; Renew (Some 2) false; Tick 1; Renew None true; Tick 1] in
+  allow_renewal cfg = false /\ len s = 3 /\
+  Forall (fun o => assigns_allow_renewal o = false /\ o <> Reset) ops /\
+  exec_count depleted_f64 rate_hit_f64 current cfg s (len s) 0 0 ops
+  = (execf cfg s ops, 3, 2, 2) /\
+  ph (execf cfg s ops) = Senescent /\ len (execf cfg s ops) = 0.
+Proof.
+  vm_compute. repeat split; try reflexivity.
+  repeat constructor; discriminate.
+Qed.
+
+(* c09_length_in_range / c09_hayflick with max_operations reassigned: raised to 5 the next renewal fills to 5
+   (cap 5); lowered to 2 on a telomere of length 3 the length stays 3 until the next renewal - the bound is on
+   the values in force during the history, not the one in force at the end *)
+Example ex_max_ops_reassigned :
+  let up := [Start; Tick 1; SetMaxOps 5; Renew None true; Tick 1] in
+  let down := [Start; SetMaxOps 2] in
+  Forall (max_ops_within 5) up /\ Forall valid_op up /\
+  exec_count depleted_f64 rate_hit_f64 current cfg3 (init cfg3) 3 0 0 up = (execf cfg3 (init cfg3) up, 5, 1, 1) /\
+  len (execf cfg3 (init cfg3) up) = 4 /\
+  len (execf cfg3 (init cfg3) down) = 3 /\ max_ops (cfg_exec cfg3 down) = 2 /\
+  len (execf cfg3 (init cfg3) (down ++ [Renew None true])) = 2.
+Proof. vm_compute. repeat split; try reflexivity; repeat constructor; discriminate. Qed.
+
+(* limits assigned on the live object are the ones check_timeouts and record_error read *)
+Example ex_limits_reassigned :
+  let ops := [Start; Advance 4; SetMaxLifetime (Some 4)] in
+  let ops2 := [Start; RecordError; SetErrThreshold 5] in
+  step_out depleted_f64 rate_hit_f64 current cfg3 (execf cfg3 (init cfg3) [Start; Advance 4]) CheckTimeouts
+    = Ret (RBool true) /\
+  stepf (cfg_exec cfg3 ops) (execf cfg3 (init cfg3) ops) CheckTimeouts
+    = (mkState Senescent 3 0 0 0 (Some Timeout) (Some 0) (Some 0) 4, Ret (RBool false), [(Active, Senescent)]) /\
+  ph (step_state depleted_f64 rate_hit_f64 current cfg3 (execf cfg3 (init cfg3) [Start; RecordError]) RecordError)
+    = Senescent /\
+  ph (step_state depleted_f64 rate_hit_f64 current (cfg_exec cfg3 ops2) (execf cfg3 (init cfg3) ops2) RecordError)
+    = Active.
+Proof. vm_compute. repeat split; reflexivity. Qed.
 
 (* the float threshold: with max_operations 10 the 9th unit tick leaves
    length 1, ratio 0.1 <= 0.1: SENESCENT *)
@@ -147,6 +217,7 @@ Example ex_lifetime_expiry_permanent :
   let ops := [CheckTimeouts; Advance (3 * us_day); Renew None true; Heartbeat; Tick 1; Advance 1] in
   ph s <> Nascent /\ started_at s = Some 0 /\ 2 * us_hour <= now s - 0 /\
   ~ In Reset ops /\ Forall forward_op ops /\
+  max_lifetime (cfg_exec cfg_days ops) = Some (2 * us_hour) /\
   ph (execf cfg_days s ops) = Active /\
   ph (step_state depleted_f64 rate_hit_f64 current cfg_days (execf cfg_days s ops) CheckTimeouts) = Senescent.
 Proof.
@@ -177,6 +248,13 @@ Qed.
 Example ex_raise_outside_domain :
   let cfg := mkConfig 0 2 true None None in
   step_out depleted_f64 rate_hit_f64 current cfg (init cfg) (Tick (-1)) = Raised.
+Proof. vm_compute. reflexivity. Qed.
+
+(* ... and so is max_operations = 0 assigned to a live object that has length left (valid_op demands a positive
+   value): the ratio length / max_operations of the next tick raises *)
+Example ex_raise_outside_domain_assigned_zero :
+  let ops := [Start; SetMaxOps 0] in
+  step_out depleted_f64 rate_hit_f64 current (cfg_exec cfg3 ops) (execf cfg3 (init cfg3) ops) (Tick 1) = Raised.
 Proof. vm_compute. reflexivity. Qed.
 
 (* the binary64 classifiers and their exact readings agree on every pair the
